@@ -182,10 +182,12 @@ func vpAzModeCoords(compact bool, layers int) (xs, ys []int) {
 	if !compact {
 		per = 10
 	}
-	offs := make([]int, 0, per)
+	offs := make([]int, per)
+	n := 0
 	for o := -(r - 2); o <= r-2; o++ {
 		if !vpAzOnGrid(compact, o) {
-			offs = append(offs, o)
+			offs[n] = o
+			n++
 		}
 	}
 	xs = make([]int, 4*per)
@@ -210,10 +212,18 @@ func vpAzModeCoords(compact bool, layers int) (xs, ys []int) {
 func vpAzAxis(compact bool, layers int) []int {
 	size := vpAzSize(compact, layers)
 	c := size / 2
-	axis := make([]int, 0, size)
+	base := 0
 	for x := 0; x < size; x++ {
 		if !vpAzOnGrid(compact, x-c) {
-			axis = append(axis, x)
+			base++
+		}
+	}
+	axis := make([]int, base)
+	n := 0
+	for x := 0; x < size; x++ {
+		if !vpAzOnGrid(compact, x-c) {
+			axis[n] = x
+			n++
 		}
 	}
 	return axis
@@ -486,74 +496,75 @@ const (
 func vpAzEntry(kind, a, b int) int { return kind<<16 | a<<8 | b }
 
 // vpAzCharTable builds the five code sets of ISO/IEC 24778 Table "Character
-// set": [mode][code]. Digit has 16 codes (4 bits), the others 32 (5 bits).
-func vpAzCharTable() [5][32]int {
-	var t [5][32]int
+// set" as one flat table indexed mode*32+code. Digit has 16 codes (4 bits),
+// the others 32 (5 bits).
+func vpAzCharTable() []int {
+	t := make([]int, 5*32)
 	// Upper
-	t[vpAzUpper][0] = vpAzEntry(vpAzShift, vpAzPunct, 0)
-	t[vpAzUpper][1] = vpAzEntry(vpAzChar, ' ', 0)
+	t[vpAzUpper*32+0] = vpAzEntry(vpAzShift, vpAzPunct, 0)
+	t[vpAzUpper*32+1] = vpAzEntry(vpAzChar, ' ', 0)
 	for i := 0; i < 26; i++ {
-		t[vpAzUpper][2+i] = vpAzEntry(vpAzChar, 'A'+i, 0)
+		t[vpAzUpper*32+2+i] = vpAzEntry(vpAzChar, 'A'+i, 0)
 	}
-	t[vpAzUpper][28] = vpAzEntry(vpAzLatch, vpAzLower, 0)
-	t[vpAzUpper][29] = vpAzEntry(vpAzLatch, vpAzMixed, 0)
-	t[vpAzUpper][30] = vpAzEntry(vpAzLatch, vpAzDigit, 0)
-	t[vpAzUpper][31] = vpAzEntry(vpAzBinary, 0, 0)
+	t[vpAzUpper*32+28] = vpAzEntry(vpAzLatch, vpAzLower, 0)
+	t[vpAzUpper*32+29] = vpAzEntry(vpAzLatch, vpAzMixed, 0)
+	t[vpAzUpper*32+30] = vpAzEntry(vpAzLatch, vpAzDigit, 0)
+	t[vpAzUpper*32+31] = vpAzEntry(vpAzBinary, 0, 0)
 	// Lower
-	t[vpAzLower][0] = vpAzEntry(vpAzShift, vpAzPunct, 0)
-	t[vpAzLower][1] = vpAzEntry(vpAzChar, ' ', 0)
+	t[vpAzLower*32+0] = vpAzEntry(vpAzShift, vpAzPunct, 0)
+	t[vpAzLower*32+1] = vpAzEntry(vpAzChar, ' ', 0)
 	for i := 0; i < 26; i++ {
-		t[vpAzLower][2+i] = vpAzEntry(vpAzChar, 'a'+i, 0)
+		t[vpAzLower*32+2+i] = vpAzEntry(vpAzChar, 'a'+i, 0)
 	}
-	t[vpAzLower][28] = vpAzEntry(vpAzShift, vpAzUpper, 0)
-	t[vpAzLower][29] = vpAzEntry(vpAzLatch, vpAzMixed, 0)
-	t[vpAzLower][30] = vpAzEntry(vpAzLatch, vpAzDigit, 0)
-	t[vpAzLower][31] = vpAzEntry(vpAzBinary, 0, 0)
+	t[vpAzLower*32+28] = vpAzEntry(vpAzShift, vpAzUpper, 0)
+	t[vpAzLower*32+29] = vpAzEntry(vpAzLatch, vpAzMixed, 0)
+	t[vpAzLower*32+30] = vpAzEntry(vpAzLatch, vpAzDigit, 0)
+	t[vpAzLower*32+31] = vpAzEntry(vpAzBinary, 0, 0)
 	// Mixed: control characters ^A..^M, ESC FS GS RS US, then @ \ ^ _ ` | ~ DEL
-	t[vpAzMixed][0] = vpAzEntry(vpAzShift, vpAzPunct, 0)
-	t[vpAzMixed][1] = vpAzEntry(vpAzChar, ' ', 0)
+	t[vpAzMixed*32+0] = vpAzEntry(vpAzShift, vpAzPunct, 0)
+	t[vpAzMixed*32+1] = vpAzEntry(vpAzChar, ' ', 0)
 	for i := 1; i <= 13; i++ {
-		t[vpAzMixed][1+i] = vpAzEntry(vpAzChar, i, 0)
+		t[vpAzMixed*32+1+i] = vpAzEntry(vpAzChar, i, 0)
 	}
 	for i := 0; i < 5; i++ {
-		t[vpAzMixed][15+i] = vpAzEntry(vpAzChar, 27+i, 0)
+		t[vpAzMixed*32+15+i] = vpAzEntry(vpAzChar, 27+i, 0)
 	}
 	mixedTail := [8]int{'@', '\\', '^', '_', '`', '|', '~', 127}
 	for i := 0; i < 8; i++ {
-		t[vpAzMixed][20+i] = vpAzEntry(vpAzChar, mixedTail[i], 0)
+		t[vpAzMixed*32+20+i] = vpAzEntry(vpAzChar, mixedTail[i], 0)
 	}
-	t[vpAzMixed][28] = vpAzEntry(vpAzLatch, vpAzLower, 0)
-	t[vpAzMixed][29] = vpAzEntry(vpAzLatch, vpAzUpper, 0)
-	t[vpAzMixed][30] = vpAzEntry(vpAzLatch, vpAzPunct, 0)
-	t[vpAzMixed][31] = vpAzEntry(vpAzBinary, 0, 0)
+	t[vpAzMixed*32+28] = vpAzEntry(vpAzLatch, vpAzLower, 0)
+	t[vpAzMixed*32+29] = vpAzEntry(vpAzLatch, vpAzUpper, 0)
+	t[vpAzMixed*32+30] = vpAzEntry(vpAzLatch, vpAzPunct, 0)
+	t[vpAzMixed*32+31] = vpAzEntry(vpAzBinary, 0, 0)
 	// Punct
-	t[vpAzPunct][0] = vpAzEntry(vpAzFlg, 0, 0)
-	t[vpAzPunct][1] = vpAzEntry(vpAzChar, '\r', 0)
-	t[vpAzPunct][2] = vpAzEntry(vpAzPair, '\r', '\n')
-	t[vpAzPunct][3] = vpAzEntry(vpAzPair, '.', ' ')
-	t[vpAzPunct][4] = vpAzEntry(vpAzPair, ',', ' ')
-	t[vpAzPunct][5] = vpAzEntry(vpAzPair, ':', ' ')
+	t[vpAzPunct*32+0] = vpAzEntry(vpAzFlg, 0, 0)
+	t[vpAzPunct*32+1] = vpAzEntry(vpAzChar, '\r', 0)
+	t[vpAzPunct*32+2] = vpAzEntry(vpAzPair, '\r', '\n')
+	t[vpAzPunct*32+3] = vpAzEntry(vpAzPair, '.', ' ')
+	t[vpAzPunct*32+4] = vpAzEntry(vpAzPair, ',', ' ')
+	t[vpAzPunct*32+5] = vpAzEntry(vpAzPair, ':', ' ')
 	for i := 0; i < 15; i++ { // ! " # $ % & ' ( ) * + , - . /
-		t[vpAzPunct][6+i] = vpAzEntry(vpAzChar, '!'+i, 0)
+		t[vpAzPunct*32+6+i] = vpAzEntry(vpAzChar, '!'+i, 0)
 	}
 	for i := 0; i < 6; i++ { // : ; < = > ?
-		t[vpAzPunct][21+i] = vpAzEntry(vpAzChar, ':'+i, 0)
+		t[vpAzPunct*32+21+i] = vpAzEntry(vpAzChar, ':'+i, 0)
 	}
-	t[vpAzPunct][27] = vpAzEntry(vpAzChar, '[', 0)
-	t[vpAzPunct][28] = vpAzEntry(vpAzChar, ']', 0)
-	t[vpAzPunct][29] = vpAzEntry(vpAzChar, '{', 0)
-	t[vpAzPunct][30] = vpAzEntry(vpAzChar, '}', 0)
-	t[vpAzPunct][31] = vpAzEntry(vpAzLatch, vpAzUpper, 0)
+	t[vpAzPunct*32+27] = vpAzEntry(vpAzChar, '[', 0)
+	t[vpAzPunct*32+28] = vpAzEntry(vpAzChar, ']', 0)
+	t[vpAzPunct*32+29] = vpAzEntry(vpAzChar, '{', 0)
+	t[vpAzPunct*32+30] = vpAzEntry(vpAzChar, '}', 0)
+	t[vpAzPunct*32+31] = vpAzEntry(vpAzLatch, vpAzUpper, 0)
 	// Digit
-	t[vpAzDigit][0] = vpAzEntry(vpAzShift, vpAzPunct, 0)
-	t[vpAzDigit][1] = vpAzEntry(vpAzChar, ' ', 0)
+	t[vpAzDigit*32+0] = vpAzEntry(vpAzShift, vpAzPunct, 0)
+	t[vpAzDigit*32+1] = vpAzEntry(vpAzChar, ' ', 0)
 	for i := 0; i < 10; i++ {
-		t[vpAzDigit][2+i] = vpAzEntry(vpAzChar, '0'+i, 0)
+		t[vpAzDigit*32+2+i] = vpAzEntry(vpAzChar, '0'+i, 0)
 	}
-	t[vpAzDigit][12] = vpAzEntry(vpAzChar, ',', 0)
-	t[vpAzDigit][13] = vpAzEntry(vpAzChar, '.', 0)
-	t[vpAzDigit][14] = vpAzEntry(vpAzLatch, vpAzUpper, 0)
-	t[vpAzDigit][15] = vpAzEntry(vpAzShift, vpAzUpper, 0)
+	t[vpAzDigit*32+12] = vpAzEntry(vpAzChar, ',', 0)
+	t[vpAzDigit*32+13] = vpAzEntry(vpAzChar, '.', 0)
+	t[vpAzDigit*32+14] = vpAzEntry(vpAzLatch, vpAzUpper, 0)
+	t[vpAzDigit*32+15] = vpAzEntry(vpAzShift, vpAzUpper, 0)
 	return t
 }
 
@@ -574,11 +585,18 @@ func vpAzBitsAt(bits []bool, pos, n int) int {
 // binary string cut short by the end of the data ends decoding. FLG(n) is
 // not supported: (nil, false).
 func vpAzDecode(bits []bool) ([]byte, bool) {
+	out, _, ok := vpAzDecodeFrom(bits, vpAzUpper)
+	return out, ok
+}
+
+// vpAzDecodeFrom is vpAzDecode started in an arbitrary latched mode; it also
+// returns the mode latched at the end of the data.
+func vpAzDecodeFrom(bits []bool, mode int) ([]byte, int, bool) {
 	tab := vpAzCharTable()
 	n := len(bits)
 	out := make([]byte, 0, n/2+2)
-	latch := vpAzUpper // mode to return to
-	cur := vpAzUpper   // mode of the next code
+	latch := mode // mode to return to
+	cur := mode   // mode of the next code
 	pos := 0
 	for pos < n {
 		w := 5
@@ -588,7 +606,7 @@ func vpAzDecode(bits []bool) ([]byte, bool) {
 		if n-pos < w {
 			break
 		}
-		e := tab[cur][vpAzBitsAt(bits, pos, w)]
+		e := tab[cur*32+vpAzBitsAt(bits, pos, w)]
 		pos += w
 		kind, a, b := e>>16, (e>>8)&255, e&255
 		if kind == vpAzChar {
@@ -627,10 +645,132 @@ func vpAzDecode(bits []bool) ([]byte, bool) {
 			}
 			cur = latch
 		} else {
-			return nil, false
+			return nil, latch, false
 		}
 	}
-	return out, true
+	return out, latch, true
+}
+
+// vpAzDecodeSym is vpAzDecodeFrom written for the symbolic executor: a fixed
+// number of steps (one code or one binary byte each), all decoder state kept
+// in scalars that are updated by two-armed assignments only, so that the
+// whole decoder is one path whatever the bits are. The output is written into
+// a buffer of maxOut bytes (concrete), the number of bytes produced is
+// outLen; ok is false for FLG(n) and when more than maxOut bytes are produced.
+// Natively it is equivalent to vpAzDecodeFrom (validated on random streams).
+func vpAzDecodeSym(bits []bool, mode int, maxOut int) (out []byte, outLen int, endMode int, ok bool) {
+	tab := vpAzCharTable()
+	n := len(bits)
+	// win[p]: the 21 bits starting at bit p (zeros beyond the end): enough
+	// for a code, a binary length and its extension.
+	win := make([]int, n+1)
+	for p := 0; p <= n; p++ {
+		v := 0
+		for i := 0; i < 21; i++ {
+			b := 0
+			if p+i < n {
+				b = vpAzB2I(bits[p+i])
+			}
+			v = v<<1 | b
+		}
+		win[p] = v
+	}
+	out = make([]byte, maxOut)
+	pos, latch, cur, bin := 0, mode, mode, 0
+	ok = true
+	stop := false
+	for s := 0; s <= n/4; s++ {
+		x := 0
+		for p := 0; p <= n; p++ {
+			if pos == p {
+				x = win[p]
+			}
+		}
+		rem := n - pos
+		inBin := bin > 0
+		digit := cur == vpAzDigit
+		w, code := 5, x>>16
+		if digit {
+			w, code = 4, x>>17
+		}
+		e := tab[cur*32+code]
+		kind, a, b := e>>16, (e>>8)&255, e&255
+		len5, long := (x>>11)&31, x&2047
+		short := (inBin && rem < 8) || (!inBin && rem < w)
+		act := !stop && !short
+		actBin := act && inBin
+		actCode := act && !inBin
+		isChar := actCode && (kind == vpAzChar || kind == vpAzPair)
+		isPair := actCode && kind == vpAzPair
+		isLatch := actCode && kind == vpAzLatch
+		isShift := actCode && kind == vpAzShift
+		isBS := actCode && kind == vpAzBinary
+		isFlg := actCode && kind == vpAzFlg
+		hdrFail := isBS && (rem < 10 || (len5 == 0 && rem < 21))
+		// output
+		emit1, emit2 := actBin || isChar, isPair
+		b1 := a
+		if actBin {
+			b1 = x >> 13
+		}
+		for k := 0; k < maxOut; k++ {
+			if emit1 && k == outLen {
+				out[k] = byte(b1)
+			}
+			if emit2 && k == outLen+1 {
+				out[k] = byte(b)
+			}
+		}
+		outLen += vpAzB2I(emit1) + vpAzB2I(emit2)
+		if outLen > maxOut {
+			ok = false
+			stop = true
+			outLen = maxOut
+		}
+		// state
+		if !stop && short {
+			stop = true
+		}
+		if actBin {
+			pos += 8
+			bin--
+		}
+		if actBin && bin == 0 {
+			cur = latch
+		}
+		if actCode {
+			pos += w
+		}
+		if isChar {
+			cur = latch
+		}
+		if isLatch {
+			latch = a
+			cur = a
+		}
+		if isShift || isBS {
+			latch = cur
+		}
+		if isShift {
+			cur = a
+		}
+		if isBS && !hdrFail && len5 != 0 {
+			bin = len5
+			pos += 5
+		}
+		if isBS && !hdrFail && len5 == 0 {
+			bin = long + 31
+			pos += 16
+		}
+		if hdrFail {
+			stop = true
+		}
+		if isFlg {
+			ok = false
+			stop = true
+		}
+	}
+	return out, outLen, latch, ok
 }
 
 // ---------------------------------------------------------------------------
